@@ -502,6 +502,56 @@ impl crate::world::Adversary for HandshakeForger {
     }
 }
 
+/// C18: an attacker that owns two addresses, watches the nonces the server hands them, and tries
+/// to complete a handshake in the name of a third address it cannot receive at, with nonces
+/// extrapolated from the two it saw.
+pub struct NonceGuesser {
+    server: usize,
+    seen: Vec<u32>,
+    raws: Vec<usize>,
+    fired: u32,
+}
+
+impl NonceGuesser {
+    pub fn new(plan: &Plan) -> Self {
+        let raws: Vec<usize> = plan.endpoints.iter().enumerate().filter(|(_, e)| matches!(e.kind, EndpointKind::Raw)).map(|(i, _)| i).collect();
+        Self { server: 0, seen: Vec::new(), raws, fired: 0 }
+    }
+}
+
+impl crate::world::Adversary for NonceGuesser {
+    fn on_wire(&mut self, w: &crate::world::WireRec, now_us: u64, plan: &Plan, out: &mut Vec<TimedOp>) {
+        use uflow::verif::Serialize;
+        if w.src != self.server || self.raws.len() < 2 || self.fired >= 3 || now_us + 5_000_000 >= plan.end_us {
+            return;
+        }
+        let Some(dst) = w.dst else { return };
+        if !self.raws.contains(&dst) {
+            return;
+        }
+        if let Some(uflow::verif::Frame::HandshakeSynAckFrame(f)) = uflow::verif::Frame::read(&w.bytes) {
+            if self.seen.last() == Some(&f.nonce) {
+                return; // a repetition of the same SYN-ACK
+            }
+            self.seen.push(f.nonce);
+            if self.seen.len() >= 2 {
+                let n2 = self.seen[self.seen.len() - 1];
+                let d = n2.wrapping_sub(self.seen[self.seen.len() - 2]);
+                // the victim: another raw address (it never answers by itself in these runs)
+                let victim = *self.raws.iter().rev().find(|r| **r != dst).unwrap();
+                self.fired += 1;
+                let t = now_us + 1000;
+                out.push(TimedOp { t_us: t, rank: DELIVER_RANK_PUB, op: Op::Inject { to: self.server, from: victim, bytes: enc_syn(3, 0x0BADCAFE, 2_000_000, 1000, 1_000_000, 1472), twin: false } });
+                for k in 1..=3u32 {
+                    out.push(TimedOp { t_us: t + 50_000 * k as u64, rank: DELIVER_RANK_PUB, op: Op::Inject { to: self.server, from: victim, bytes: enc_hs_ack(n2.wrapping_add(d.wrapping_mul(k))), twin: false } });
+                }
+            }
+        }
+    }
+
+    fn on_call_end(&mut self, _call: u64, _ep: Option<usize>, _probe: &crate::world::Probe, _now_us: u64, _plan: &Plan, _out: &mut Vec<TimedOp>) {}
+}
+
 /// C08 / C09: lifecycle interleavings. Random API calls on both endpoints with faults on every
 /// frame type and short timeouts.
 pub fn world_b_lifecycle(property: &str, scenario: &str, seed: u64, run: u64, thorough: bool) -> Plan {
@@ -694,7 +744,7 @@ pub fn world_b_limits(property: &str, scenario: &str, seed: u64, run: u64, thoro
         let cad = Cadence { period_us: r.range(5_000, 50_000), jitter: 0.3, stall_p: 0.0, stall_max_us: 0, flush_after_step_p: 0.0 };
         // how the connection ends
         let t_end = (t_create + r.range(3_000_000, horizon / 3)).min(horizon);
-        let ending = r.below(11);
+        let ending = r.below(12);
         if ending != 7 {
             plan.params.insert(format!("created_ep{}", c), 1.0);
         }
@@ -708,6 +758,13 @@ pub fn world_b_limits(property: &str, scenario: &str, seed: u64, run: u64, thoro
                 plan.push(ts, r.u32() | 1, if r.chance(0.5) { Op::Disconnect { ep: 0, to: Some(c) } } else { Op::DisconnectNow { ep: 0, to: Some(c) } });
                 plan.push(tc, r.u32() | 1, if r.chance(0.5) { Op::Disconnect { ep: c, to: None } } else { Op::DisconnectNow { ep: c, to: None } });
                 horizon
+            }
+            11 => {
+                // the server application disconnects the client while its handshake is still in
+                // progress (between SYN and ACK)
+                let t = t_create + latency + r.range(10_000, latency.max(10_001) + 40_000);
+                plan.push(t, r.u32() | 1, if r.chance(0.5) { Op::Disconnect { ep: 0, to: Some(c) } } else { Op::DisconnectNow { ep: 0, to: Some(c) } });
+                t_end.max(t)
             }
             10 => {
                 // the client vanishes; the server application, unaware, queues reliable data and
@@ -823,13 +880,44 @@ pub fn world_b_spoof(property: &str, scenario: &str, seed: u64, run: u64, thorou
     let sweep_base = 5 + ((run * 16) % 1467) as usize;
     for (k, &raw) in topo.raws.iter().enumerate() {
         plan.push(0, 1, Op::Create { ep: raw });
-        let style = r.below(6);
+        let style = r.below(7);
+        if style == 6 {
+            // "promote me": a valid SYN with a nonce of the sender's own choosing, then frames
+            // that prove nothing (a data frame numbered with that nonce, an ACK repeating it,
+            // sync / ack frames) - and a server application that greets whoever is connected
+            let x = r.u32();
+            let mut t = r.range(0, 2_000_000);
+            plan.push(t, 0x8000_0002, Op::Inject { to: 0, from: raw, bytes: enc_syn(3, x, 2_000_000, 1000, 1_000_000, 1472), twin: false });
+            for _ in 0..r.range(1, 4) {
+                t += r.range(20_000, 400_000);
+                let bytes = match r.below(5) {
+                    0 | 1 => enc_data(x.wrapping_add(r.below(4096) as u32), false, &[]),
+                    2 => enc_hs_ack(x.wrapping_add(r.below(2) as u32)),
+                    3 => enc_sync(Some(x), Some(x & 0xFFFFF)),
+                    _ => enc_ack(x, x & 0xFFFFF, &[(x, 1, 0)]),
+                };
+                plan.push(t, 0x8000_0002, Op::Inject { to: 0, from: raw, bytes, twin: false });
+            }
+        }
+        // the server application sends to every address it believes connected, now and then
+        {
+            let mut t = r.range(500_000, 3_000_000);
+            let mut tag = 800_000 + 1000 * k as u32;
+            while t < horizon {
+                plan.push(t, 0x4000_0000 + tag, Op::Send { ep: 0, to: Some(raw), ch: 0, mode: MODE_RELIABLE, len: 20_000, tag });
+                tag += 1;
+                t += r.range(2_000_000, 6_000_000);
+            }
+        }
         // style 5: one valid SYN buys a pending entry, then a long burst of one kind of small
         // stray frame arrives inside the handshake window (each may elicit at most nothing)
         let n = if style == 5 { r.range(80, 400) } else { r.range(1, 30) };
         let mut t = r.range(0, 2_000_000);
         let burst_kind = r.below(7);
         for j in 0..n {
+            if style == 6 {
+                break;
+            }
             if style == 5 {
                 let bytes = if j == 0 {
                     enc_syn(3, 0x1234_5678 + k as u32, 2_000_000, 1000, 1_000_000, 1472)
